@@ -12,7 +12,7 @@ import numpy as np
 from scipy import sparse
 
 from .. import par
-from ..qlib import lib, q_from_float, q_to_float, omul, oherm, sha
+from ..qlib import lib, q_from_float, q_to_float, omul, oherm, sha, f_layout
 
 TCFG = """INIT TInit
 NEXT TNext
@@ -168,7 +168,7 @@ def _events(args):
     u = lib().utils
     for c in cat:
         m, n = c.shape[:2]
-        C = q_to_float(u.real_contract(u.real_expand(q_from_float(c)), m, n))
+        C = q_to_float(u.real_contract(f_layout(u.real_expand(q_from_float(c)), byteorder_only=True), m, n))
         add({"op": "contract", "fn": "real_contract", "A": ilist(c), "C": ilist(C) if np.array_equal(np.rint(C), C) else []})
     for k in range(200 if thorough else 40):
         m, n = int(rng.integers(1, 6)), int(rng.integers(1, 6))
@@ -183,7 +183,7 @@ def _events(args):
             G[0, 0, 0] = 1.0
             if m * n > 1:
                 G[-1, -1] = [-0.0, 0.0, -0.0, 2.0 ** -1000]
-        C = q_to_float(u.real_contract(u.real_expand(q_from_float(G)), m, n))
+        C = q_to_float(u.real_contract(f_layout(u.real_expand(q_from_float(G)), byteorder_only=True), m, n))
         add({"op": "flag", "clause": "RoundTrip", "fn": "real_contract", "ok": bool(sha(C) == sha(G)),
              "shape": [m, n]})
         if k % 4 == 1:
